@@ -54,6 +54,8 @@ type Subscription struct {
 	accessCallbacks []func(*rescache.Access)
 	flags           uint8
 	throttle        *rescache.Throttle
+	// reaccessThrottle is the throttle of a reaccess deferred by flagReaccess
+	reaccessThrottle *rescache.Throttle
 
 	// Protected by conn
 	direct       int // Number of direct subscriptions
@@ -309,7 +311,9 @@ func (s *Subscription) unqueueEvents(reason uint8) {
 
 	// Start with reaccess calls
 	if s.flags&flagReaccess != 0 {
-		s.handleReaccess(nil)
+		t := s.reaccessThrottle
+		s.reaccessThrottle = nil
+		s.handleReaccess(t)
 		if s.queueFlag != 0 {
 			return
 		}
@@ -818,6 +822,7 @@ func (s *Subscription) Dispose() {
 	s.readyCallbacks = nil
 	s.eventQueue = nil
 	s.throttle = nil
+	s.reaccessThrottle = nil
 
 	if s.resourceSub != nil {
 		// Whether the references were sent to the client is decided by the
@@ -875,6 +880,9 @@ func (s *Subscription) reaccess(t *rescache.Throttle) {
 	if s.queueFlag != 0 {
 		verifSub("sub.reaccessDeferred", s)
 		s.flags |= flagReaccess
+		if t != nil {
+			s.reaccessThrottle = t
+		}
 		return
 	}
 
